@@ -97,3 +97,13 @@ def bint_domain_differs(o, k):
         return False
     return any((n[0] == "binary" and n[1] == "sub" and _is_int(n[2]) and _is_int(n[3])) or
                (n[0] == "reduce" and n[1] in ("add", "mul") and _is_int(n[2])) for n in _nodes(p))
+
+
+def modified_psp_preserved_plate(o, k):
+    """modified_partial_sum_product given a plate in plate_to_step that is NOT in eliminate"""
+    inst = o.get("_inst")
+    try:
+        g, variant = inst[1], inst[2]
+        return variant == "modified_all" and bool(set(g["plates"]) - set(g["eliminate"]))
+    except Exception:
+        return False
